@@ -159,8 +159,8 @@ def run_cases(driver, sub, cases_path, trace_path, budget_ms=10000, mem_mb=1024,
                 for i, line in enumerate(l for l in src if l.strip()):
                     if i == done:
                         dst.write(line)
-            p2 = subprocess.run([driver, sub, "-cases", one, "-out", tmp, "-budgetms", str(budget_ms * 3),
-                                 "-memmb", str(mem_mb)] + list(extra), capture_output=True, text=True, env=env,
+            p2 = subprocess.run([driver, sub, "-cases", one, "-out", tmp, "-budgetms", str(budget_ms),
+                                 "-budgetscale", "3", "-memmb", str(mem_mb)] + list(extra), capture_output=True, text=True, env=env,
                                 preexec_fn=_limit_as(max(4096, mem_mb * 4)))
             if p2.returncode == 0:
                 # it completed: splice its completion record after the open Call
@@ -297,12 +297,26 @@ def sig_hash(obj):
     return hashlib.sha1(json.dumps(obj, sort_keys=True, separators=(",", ":")).encode()).hexdigest()[:12]
 
 
+def norm_where(where):
+    """function name of a panic/abort site, without closure suffixes, generic brackets and file:line"""
+    if not where:
+        return None
+    fn = where.split()[0]
+    fn = re.sub(r"\[[^\]]*\]", "", fn)
+    fn = re.sub(r"(\.func\d+)+(\.\d+)*$", "", fn)
+    return fn
+
+
 def match_known(known, prop, clause, case, where=None):
-    """returns the matching known-finding entry or None"""
+    """returns the matching known-finding entry or None.
+    kind "input":    the exact canonical input + options listed in the signature
+    kind "callsite": the function in which the panic was raised / the process was stuck, plus option predicates"""
     for f in known.get("findings", []):
         if f.get("property") != prop:
             continue
         if "clause" in f and f["clause"] != clause:
+            continue
+        if "clause_prefix" in f and not clause.startswith(f["clause_prefix"]):
             continue
         kind = f.get("kind")
         if kind == "input":
@@ -310,7 +324,7 @@ def match_known(known, prop, clause, case, where=None):
             if all(sig.get(k) == v for k, v in f["signature"].items()):
                 return f
         elif kind == "callsite":
-            if where is not None and f["signature"].get("where") == where:
+            if where is not None and f["signature"].get("where") == norm_where(where):
                 pred = f["signature"].get("when", {})
                 if all(case.get(k) == v for k, v in pred.items()):
                     return f
